@@ -126,6 +126,13 @@ module Pos =
     | Coq_xO p -> Coq_xO (mul p y)
     | Coq_xH -> y
 
+  (** val iter : ('a1 -> 'a1) -> 'a1 -> positive -> 'a1 **)
+
+  let rec iter f x = function
+  | Coq_xI n' -> f (iter f (iter f x n') n')
+  | Coq_xO n' -> iter f (iter f x n') n'
+  | Coq_xH -> f x
+
   (** val compare_cont : comparison -> positive -> positive -> comparison **)
 
   let rec compare_cont r x y =
